@@ -259,6 +259,7 @@ def run(ctx, P):
     from . import r2
     r2.expiry_only_brought_forward(ctx, P, "C03f")
     r2.cache_update_rules(ctx, P, "C03g", want=("flush",))
+    r2.compares_like_with_like(ctx, P, "C03h", fnames=("matches",))
     clause_live_predicates(ctx, P)
     clause_ab(ctx, P)
     clause_c(ctx, P)
